@@ -7,6 +7,15 @@ ids = [p['id'] for p in props]
 
 # id -> (technique, level text, level note, design ref)
 CLAIMS = {
+ 'C02': ("bounded exhaustive enumeration of abstract body trees x renderings with <= 1 (thorough 2) layout deviations on the real structural parser, compared with the tree that was written",
+         "Seven families of abstract body trees (attribute-only bodies over 6 names x 8 value kinds, every block form x every label sequence <= 2 over a 24-label alphabet covering every escape and template-looking text, all item sequences <= 3/2 over 14 representative items, all tree shapes <= 5 items, comment-text and duplicate-attribute families), each rendered canonically and with every single deviation (indentation, blank lines, each comment form in every slot, header gaps, CRLF, missing final newline, BOM): ParseConfig must report no errors and expose exactly the written attributes, block types, label strings, nesting and order, through the hclsyntax.Body fields, Body.Content with the derived schema, and JustAttributes; every rendering of a body that defines an attribute twice must be rejected.",
+         "BOM acceptance and the content of a heredoc under CRLF are Unspecified. Byte positions of ranges belong to C14.",
+         "DESIGN.md section 4 C02"),
+ 'C17': ("systematic schedule exploration: preemption-bounded depth-first search under a controlled cooperative scheduler of the real code (sync operations and function entries as scheduling points via go build -overlay), plus a separate free-running -race pass",
+         "17 drivers (2-3 goroutines sharing one parsed expression or body, each with its own EvalContext and goroutine-specific contents): every schedule with at most k preemptions (k = 2 for the expression drivers, 1 for the 3-goroutine and body drivers in the quick tier; 3 / 2 thorough) is executed on the implementation; each goroutine's value and diagnostics must equal the result of the same call run alone, no deadlock or panic, no residue afterwards. Evidence reports schedules (states), scheduling decisions (transitions), maximum preemptions completed and replay divergences.",
+         "A cooperative scheduler cannot see unsynchronised accesses or weak-memory effects: those are delegated to the free-running -race pass over the same driver bodies (auxiliary, not counted as model checking). For the body drivers Go map iteration order inside hcldec makes the sequence of scheduling points vary between executions; every executed schedule is still a real schedule within the bound. Instrumentation is generated at check time by overlay; if it does not build, the check falls back to lock points, then to the race pass only, and never raises an alarm for that.",
+         "DESIGN.md section 4 C17"),
+
  'C06': ("bounded exhaustive two-run non-interference check over expression ASTs, hcldec-decoded bodies and dynamic-block bodies x marked variable x all content pairs (incl. unknown), on the real evaluator/decoder",
          "Every AST of the eleven expression families that refers to a variable, every such variable marked as a whole or on its first element/attribute, and every pair of same-type contents (pool alternatives, typed unknown, null); plus 26 body templates x 5 marked variables x every hcldec block spec kind (incl. blocks nested in dynamic content) decoded through dynblock.Expand + hcldec.Decode. For every pair of error-free runs whose unmarked results differ, both results must carry the mark. The whole product is enumerated.",
          "Trusted: go-cty mark bookkeeping. Two recorded findings (known-findings.json): dynamic block with marked for_each yielding zero blocks; object index with a known marked key (pinned by the repository's own test).",
